@@ -51,6 +51,7 @@ def drv_two(text1, text2, snames, fields):
 
 
 NL = ["\n"]      # line ending used by build(); tasks may switch it to CRLF
+HW = [""]        # blanks / tabs between '@string' and '{' (tasks may switch it)
 
 
 def build(eng, n_before, n_after, shapes, kl, second=None, pfx="t"):
@@ -70,7 +71,7 @@ def build(eng, n_before, n_after, shapes, kl, second=None, pfx="t"):
     order = []   # block order: ('s', i) / ('e',)
 
     def sdef(i):
-        lit("@string{")
+        lit("@string" + HW[0] + "{")
         snames.append(hole())
         lit(" = " + SVALS[i % len(SVALS)] + "}" + NL[0])
         order.append(("s", len(snames) - 1))
@@ -164,8 +165,9 @@ def native(text, snames, fields, own, order):
     return all(bool(c) for c in conds), exp, [(f.key, f.value) for b in lib.blocks if isinstance(b, M.Entry) for f in b.fields]
 
 
-def task(n_before, n_after, shapes, kl, label, second=None, earlier=None, crlf=False):
+def task(n_before, n_after, shapes, kl, label, second=None, earlier=None, crlf=False, hw=""):
     NL[0] = "\r\n" if crlf else "\n"
+    HW[0] = hw
     eng = Engine()
     rec = Recorder(eng)
     text0 = None
@@ -214,7 +216,7 @@ def task(n_before, n_after, shapes, kl, label, second=None, earlier=None, crlf=F
 def main():
     chk = Check("C11", __doc__)
     chk.bounds = {"names": "every @string key / referenced identifier: 1 char (all templates) and 2 chars (single-field templates) over {a,A,b,-} (so non-identifier-like names such as 'a-' occur)",
-                  "templates": "0..2 definitions before x 0..1 after x 1..2 fields x value shapes {bare, braced, quoted, concat, number}; plus two-entry documents (metadata is per entry)"}
+                  "templates": "0..2 definitions before x 0..1 after x 1..2 fields x value shapes {bare, braced, quoted, concat, number}; plus two-entry documents (metadata is per entry); CRLF line ends; blanks / a tab between '@string' and '{'"}
     chk.assumptions = ["@string values are the three fixed literals {v1}, \"v2\" # x, w3", "names longer than 2 characters are outside the claim"]
     chk.expected_vacuity = ["reference-resolved", "undefined-name-kept"]
     for nb, na in itertools.product((0, 1, 2), (0, 1)):
@@ -231,6 +233,12 @@ def main():
         for shapes in (("bare",), ("braced", "bare"), ("number",)):
             name = f"crlf-b{nb}a{na}-" + "+".join(shapes)
             chk.add_task(name, task, n_before=nb, n_after=na, shapes=shapes, kl=1, label=name, crlf=True)
+    # blanks / a tab between '@string' and '{' (legal in the dialect grammar; the definition must still count)
+    for nb, na in ((1, 0), (0, 1), (2, 0)):
+        for shapes in (("bare",), ("concat",), ("braced", "bare")):
+            for hw in (" ", "\t", "  "):
+                name = f"hws{len(hw)}{'t' if hw == chr(9) else ''}-b{nb}a{na}-" + "+".join(shapes)
+                chk.add_task(name, task, n_before=nb, n_after=na, shapes=shapes, kl=1, label=name, hw=hw)
     # a document parsed after another one in the same process (no state may survive between calls)
     for nb, na in ((1, 0), (0, 1), (0, 0), (2, 0)):
         for enb, ena in ((1, 0), (0, 1)):
